@@ -49,10 +49,13 @@ def _case(draw):
     shared = draw(st.booleans())
     # how the vector solver is given the functions: a list of scalar functions, or ONE callable of the whole vector (which may
     # hand back its argument: f(x) = x)
-    vec_mode = draw(st.sampled_from(["list", "list", "callable", "identity"]))
+    vec_mode = draw(st.sampled_from(["list", "list", "callable", "identity", "int_bounds"]))
+    if vec_mode == "int_bounds":
+        # whole-number bracket ends handed to the vector solver as INTEGER arrays ([0], [1]); the roots lie at 0.3
+        comps = [dict(c, r=0.3, wl=0.3, wr=0.7, rev=False, fam=c["fam"] if c["fam"] in ("lin", "cubic", "tanh", "expm1", "jump", "kink") else "lin") for c in comps]
     if vec_mode == "identity":
         comps = [dict(c, fam="lin", s=1.0, r=0.0) for c in comps]
-    return dict(part="brent", comps=comps, dtype=draw(st.sampled_from(["float64", "float64", "float32", "longdouble"])),
+    return dict(part="brent", comps=comps, dtype=draw(st.sampled_from(["float64", "float64", "float32", "longdouble"])) if vec_mode != "int_bounds" else "float64",
                 tol=draw(st.sampled_from([None, None, 1e-15, 1e-12, 1e-9, 1e-6, 1e-3])), shared=shared if vec_mode == "list" else False, vec_mode=vec_mode)
 
 
@@ -149,6 +152,9 @@ def check(case):
     tol_eff = max(tol if tol is not None else 0.0, eps4)
     fns = [Fn(p, dt) for p in case["comps"]]
     n = len(fns)
+    if case.get("vec_mode") == "int_bounds":
+        for f_ in fns:
+            f_.a, f_.b = dt(0.0), dt(1.0)
     if case["shared"]:
         # one shared bracket: use the first component's bracket for all (other components see whatever it contains)
         for f in fns[1:]:
@@ -241,6 +247,9 @@ def check(case):
         elif case.get("vec_mode", "list") == "callable":
             labels.append("vector_solver_given_one_callable")
             xs, oks = opt.brentsrootvec(lambda x: np.asarray([fns[i](x[i]) for i in range(n)], dtype=dt), [los.copy(), his.copy()], tol=tol)
+        elif case.get("vec_mode") == "int_bounds":
+            labels.append("vector_solver_given_integer_bounds")
+            xs, oks = opt.brentsrootvec(list(fns), [np.zeros(n, dtype=np.int64), np.ones(n, dtype=np.int64)], tol=tol)
         elif case.get("vec_mode") == "identity":
             labels.append("vector_solver_given_the_identity")
             xs, oks = opt.brentsrootvec(lambda x: x, [los.copy(), his.copy()], tol=tol)
